@@ -180,12 +180,12 @@ theorem ratioFee_is_ceil {r : Ratio} {pd : Denom} {applied amt : Int} {fd : Deno
     simp only [Except.ok.injEq, Prod.mk.injEq] at h
     obtain ⟨rfl, rfl⟩ := h
     refine ⟨rfl, hd, ?_⟩
-    by_cases hfit : fits256 (applied * r.feeAmt) = true
+    by_cases hfit : fits256 (Fees.ceilDiv (applied * r.feeAmt) r.priceAmt) = true
     · obtain ⟨a, rr, hok, hceil, _, _⟩ := PvProofs.C19.applyLoosely_is_ceil ha hrf hrp hfit
       rw [hok] at happ
       simp only [Except.ok.injEq, Prod.mk.injEq] at happ
       rw [← happ.1]; exact hceil
-    · have : fits256 (applied * r.feeAmt) = false := by simpa using hfit
+    · have : fits256 (Fees.ceilDiv (applied * r.feeAmt) r.priceAmt) = false := by simpa using hfit
       obtain ⟨e, he⟩ := (PvProofs.C19.applyLoosely_fails_iff ha hrf hrp).mpr this
       rw [he] at happ; cases happ
 
